@@ -231,6 +231,11 @@ def one_run(run, tier, seed, bin_hash):
             cnt, ln = t["random"]
             rcfg = run.get("random_cfg", cfg)
             subprocess.run([MODELRUN, "random", prim, rcfg, str(seed), str(cnt), str(ln)], stdout=hf, stderr=subprocess.PIPE, text=True)
+        if t.get("scale"):
+            # scale walks: fill the wait queue with many waiters, then prefer what wakes most
+            cnt, ln, target = t["scale"]
+            scfg = run.get("scale_cfg", run.get("random_cfg", cfg))
+            subprocess.run([MODELRUN, "scale", prim, scfg, str(seed), str(cnt), str(ln), str(target)], stdout=hf, stderr=subprocess.PIPE, text=True)
     if prim == "mpmc":
         retag_file(hist)
     nhist = sum(1 for _ in open(hist))
@@ -435,14 +440,6 @@ def main():
                      "the property's monitor fails on a continuation of a divergent history",
                 history=failing["history"], run=failing["run"], flavour=failing["flavour"])))
     # failing-input search: a monitor evaluated on the implementation's own traces
-    if violations and failing is None and spec.get("monitor"):
-        try:
-            import monitors
-            failing = monitors.search(prop, spec, corr, tier, seed)
-        except Exception as e:  # the search is best effort
-            failing = None
-            violations.append(dict(kind="search-error", detail=repr(e)))
-
     if violations and failing is None and spec.get("monitor") and corr["runs"]:
         # the exploration is model-guided: where the implementation has silently diverged, the
         # failing continuation may only have been executed after a shorter path on which it had
@@ -451,6 +448,14 @@ def main():
             import monitors
             failing = monitors.followup(prop, spec, corr, tier, seed, all_keys=True)
         except Exception as e:
+            failing = None
+            violations.append(dict(kind="search-error", detail=repr(e)))
+
+    if violations and failing is None and spec.get("monitor"):
+        try:
+            import monitors
+            failing = monitors.search(prop, spec, corr, tier, seed)
+        except Exception as e:  # the search is best effort
             failing = None
             violations.append(dict(kind="search-error", detail=repr(e)))
 
